@@ -12,15 +12,26 @@
        same screen, same arguments, announced modality (a replace inherits the modality of the entry it
        has just popped), a fresh entry id; or the discard of the entry whose setup has just failed;
      - a pop only of the ideal top;
-     - T_SETUP / T_REFRESH / T_SHOW / T_SEPARATOR only for the ideal top entry (id and screen). *)
+     - T_SETUP / T_REFRESH / T_SHOW / T_SEPARATOR only for the ideal top entry (id and screen); so is T_SETUP_BEGIN
+       (a setup() that runs commands of its own is entered); the T_SETUP that reports the return of such a setup() and
+       the T_REFRESH that follows it concern the entry the setup() was entered for ([in_setup_of]) even when that setup()
+       changed the stack (nothing is drawn then: the scheduler compares the top with the entry).
+   Hypothesis [failing_setup_plain specs] of the session theorems: a screen whose setup() can report failure
+   (sc_setup contains false) has no setup commands.  Without it the statement is false
+   ([C04_failed_setup_after_push_refuted]); [plain_setup specs] (no setup() runs commands) implies it. *)
 From Coq Require Import ZArith NArith List Bool.
 From RecordUpdate Require Import RecordUpdate.
 From SL Require Import PyInt LoopSem ScreenSem ScreenMon proofs.ScreenLink proofs.C04Proofs.
 Import ListNotations.
 
-(* 1. every session of every application — any screens (callbacks are arbitrary command lists), any
-      typed lines, any top-level actions, any fuel — produces a trace the monitor accepts *)
+(* 1. every session of every application — any screens (callbacks are arbitrary command lists, setup() included as
+      long as a setup() that can fail does nothing else), any typed lines, any top-level actions, any fuel — produces a
+      trace the monitor accepts *)
+Theorem C04_plain_setup_suffices : forall specs, plain_setup specs -> failing_setup_plain specs.
+Proof. exact plain_setup_failing. Qed.
+
 Theorem C04_honest_stack : forall specs specl typed quit run_empty fuel acts,
+  failing_setup_plain specs ->
   (forall n, specs n = nth n specl default_spec) ->
   sok chk_C04 typed (rev (trace (snd (app_run_all specs specl typed quit run_empty fuel acts)))) = true.
 Proof. exact C04_honest_stack_proof. Qed.
@@ -64,6 +75,7 @@ Proof. exact accepted_pop_top. Qed.
       ScreenStack (same entries, same order), entry ids are pairwise distinct and below the allocation
       counter, and no announced primitive is outstanding *)
 Theorem C04_stack_link : forall specs specl typed quit run_empty fuel acts,
+  failing_setup_plain specs ->
   Forall finished (fst (app_run_all specs specl typed quit run_empty fuel acts)) ->
   slink typed (snd (app_run_all specs specl typed quit run_empty fuel acts)).
 Proof. exact stack_link. Qed.
@@ -71,6 +83,7 @@ Proof. exact stack_link. Qed.
 (* the same, through every loop-level call of the model (Hoare style): from a linked state whose open
    _process_screen frames are [pf], a call that comes back leaves a linked state with the same frames *)
 Theorem C04_exec_link : forall typed specs Ps pf f c s o s',
+  failing_setup_plain specs ->
   is_prog c = false -> Inv typed false 0 Ps pf s ->
   exec (screen_code specs) f c s = (o, s') ->
   match o with
@@ -104,6 +117,23 @@ Example C04_monitor_rejects :
   sok chk_C04 [] bad_replace_modality = false.
 Proof. vm_compute. repeat split. Qed.
 
+(* setup() with commands.  A setup() that pushes a screen and then reports FAILURE: the scheduler's discard
+   (`self._screen_stack.pop()`) removes the screen that setup() pushed, not the entry whose setup failed — a pop the
+   honest stack does not allow (the failed entry stays and is set up again on every redraw).  The model's own trace is
+   rejected: [C04_honest_stack] needs its hypothesis about setups *)
+Example C04_failed_setup_after_push_refuted :
+  sok chk_C04 fs_typed (rev (trace (snd (app_run_all (fs_specs [false]) (fs_specl [false]) fs_typed None false fs_fuel fs_acts)))) = false.
+Proof. vm_compute; reflexivity. Qed.
+
+(* the same session with a setup() that succeeds is accepted: the pushed screen is drawn, closed, then the screen
+   whose setup() pushed it *)
+Example C04_setup_push_accepted :
+  sok chk_C04 fs_typed (rev (trace (snd (app_run_all (fs_specs []) (fs_specl []) fs_typed None false fs_fuel fs_acts)))) = true /\
+  fst (app_run_all (fs_specs []) (fs_specl []) fs_typed None false fs_fuel fs_acts) = [ONormal; ONormal] /\
+  shows (rev (trace (snd (app_run_all (fs_specs []) (fs_specl []) fs_typed None false fs_fuel fs_acts)))) = [(1, 1); (0, 0)].
+Proof. vm_compute. repeat split. Qed.
+
+Print Assumptions C04_plain_setup_suffices.
 Print Assumptions C04_honest_stack.
 Print Assumptions C04_ideal_stack_ops.
 Print Assumptions C04_ideal_stack_other.
